@@ -37,6 +37,7 @@ class _State:
         self.assumed_plain = []
         self.ufs = {}
         self.hints = []
+        self.rtol = RTOL
 
 
 ST = _State()
@@ -64,6 +65,7 @@ def reset(mode, values=None, seed=0):
     ST.drawn = {}
     ST.ufs = {}
     ST.hints = []
+    ST.rtol = RTOL
 
 
 def mode():
@@ -291,7 +293,13 @@ def _shape(x):
     return ()
 
 
-def _num_close(a, b, rtol=RTOL):
+def set_rtol(r):
+    """relative tolerance of the float comparisons in const / plain mode (default 1e-9)"""
+    ST.rtol = r
+
+
+def _num_close(a, b, rtol=None):
+    rtol = ST.rtol if rtol is None else rtol
     a = tofloat(a)
     b = tofloat(b)
     if isinstance(a, bool) or isinstance(b, bool):
@@ -301,7 +309,7 @@ def _num_close(a, b, rtol=RTOL):
     return abs(a - b) <= rtol * max(1.0, abs(a), abs(b))
 
 
-def eq(a, b, rtol=RTOL):
+def eq(a, b, rtol=None):
     """a == b (element-wise for arrays; shapes must agree)"""
     if _shape(a) != _shape(b):
         if _shape(a) != () and _shape(b) != ():
